@@ -783,7 +783,36 @@ def rule_r10(ctx, marker: str) -> RuleResult:
     return rr
 
 
+def rule_r11(ctx) -> RuleResult:
+    """`_lua_invoke` decides from the environment stack whether it is the outermost invocation (and arms / removes the hook, R8).
+    While an invocation runs, the only code that may shorten that stack is the clean-up of call_lua_sandbox, bounded by its
+    own entry length (R10); the per-page reset empties it between pages.  Emptying it anywhere else -- e.g. "an #invoke written
+    on the page itself is outermost, drop stale entries" -- empties it in the middle of an enclosing invocation that reached
+    this point through frame:preprocess, and the nested #invoke then restarts the clock and removes the hook (seed C07-9B)."""
+    rr = RuleResult("C07.R11", "the Lua environment/frame stacks are emptied only by the per-page reset", min_instances=2)
+    allowed = {"core.Wtp.start_page", "core.Wtp.__init__"}
+    n_ok = 0
+    for dotted, m, f in ctx.index.all_functions():
+        for c in walk_no_nested(f):
+            if isinstance(c, ast.Call) and isinstance(c.func, ast.Attribute) and c.func.attr in ("clear", "popleft") \
+                    and isinstance(c.func.value, ast.Attribute) and c.func.value.attr in ("lua_env_stack", "lua_frame_stack"):
+                ctx.touched(dotted, m.relpath)
+                if dotted in allowed or any(dotted.startswith(a + ".") for a in allowed):
+                    rr.ok(dotted, "{} in the per-page reset".format(unparse(c)))
+                    n_ok += 1
+                else:
+                    rr.bad(Finding("C07.R11", m.relpath, dotted, unparse(c),
+                                   "the stack that tells a nested invocation from the outermost one is emptied outside the per-page reset: an "
+                                   "#invoke reached through frame:preprocess/expandTemplate of a running invocation passes here too, takes itself "
+                                   "for the outermost one, restarts the clock and removes the hook when it returns", c.lineno))
+            if isinstance(c, (ast.Delete,)):
+                pass
+    if n_ok == 0 and not rr.findings:
+        raise AnalysisError("the per-page reset no longer empties the Lua stacks in a recognised way")
+    return rr
+
+
 def run(ctx) -> list:
     marker = _marker(ctx)
     return [rule_r1(ctx), rule_r2(ctx, marker), rule_r3(ctx), rule_r4(ctx, marker), rule_r5(ctx, marker), rule_r6(ctx), rule_r7(ctx), rule_r8(ctx), rule_r9(ctx),
-            rule_r10(ctx, marker)]
+            rule_r10(ctx, marker), rule_r11(ctx)]
